@@ -2,5 +2,5 @@ SPECIFICATION Spec
 CONSTANTS
   Tunnels <- MCTunnels
   Kind <- MCKind
-INVARIANTS TypeOK RegistryMutex WriteMutex LoopImpliesRegistered NothingLeftWhenHandlersAreGone AtMostOneDial RelayNeedsConnection ConnectionNeedsRegisteredLoop ConnectionNeedsTheSteps PairingById InOnlyAfterPublish UserIsTheOneItWasOpenedAs
+INVARIANTS TypeOK RegistryMutex WriteMutex LoopImpliesRegistered NothingLeftWhenHandlersAreGone AtMostOneDial RelayNeedsConnection ConnectionNeedsRegisteredLoop ConnectionNeedsTheSteps PairingById InOnlyAfterPublish UserIsTheOneItWasOpenedAs ResponseDiscipline
 CHECK_DEADLOCK FALSE
